@@ -8,15 +8,26 @@ import HcipyVerif.Lemmas.Czt
 import HcipyVerif.Lemmas.Axes
 import HcipyVerif.Lemmas.FftSelect
 import HcipyVerif.Lemmas.FftState
+import HcipyVerif.Lemmas.FftPlan
+import HcipyVerif.Lemmas.ZoomN
+import HcipyVerif.Model.FftWeights
+import HcipyVerif.Lemmas.Nft
 
 /-!
 # C01 — every Fourier transform evaluates the same weighted Fourier sum
 
 Model: `HcipyVerif/Model/FftGrid.lean` (sizes, cut-outs, output grid), `Model/FftIndex.lean`
 (`fastForward`/`fastBackward`: the FastFourierTransform pipeline on one axis, both
-`emulate_fftshifts` settings), `Model/Mft.lean` (the two gemm products), `Model/Czt.lean`
-(Bluestein), `Model/Axes.lean` (the ZoomFFT axis loop).  The model is tied to the code by the C01
-correspondence (harness/props/c01.py).
+`emulate_fftshifts` settings), `Model/FftIndex2/2b/N.lean` (the literal 2-D / 3-D array programs,
+the iterated `n`-axis pipeline, the `n`-D defining sums), `Model/FftWeights.lean` (per-point
+weights), `Model/FftState.lean` (the persistent internal array), `Model/Mft.lean` (the two gemm
+products), `Model/Czt.lean` (Bluestein), `Model/ZoomN.lean` (the ZoomFFT axis loop with weights),
+`Model/Axes.lean` (its `moveaxis` bookkeeping), `Model/FftSelect.lean` (`make_fourier_transform`,
+`get_fft_parameters`).  Every one of these definitions is executed by the native driver
+(`Driver/C01.lean`) and compared with the running code by `harness/props/c01.py` /
+`c01_ties.py`; `tools/tie_report.py` measures this mechanically (no theorem of this file is about
+a definition the driver does not run, except the `Complex.exp` casts `expT`/`expE`/`Cfg.ofPlanCast`
+and the index helper `flat2`).
 
 `exp` enters through abstract characters `T` (argument in turns, 1-periodic) and `E` (radians);
 `expT`, `expE` (Lemmas/FourierC02.lean) instantiate them with `Complex.exp`, which also shows that
@@ -165,6 +176,58 @@ theorem fast_backward_nd_eq_sum (hT : IsChar T) (hE : IsChar E) (hper : ∀ n : 
     fastBackwardN T E gs F js = sumBackwardN T E wOut gs F js :=
   fastBackwardN_eq_sumBackwardN hT hE hper wOut gs hgs F js hjs
 
+/-- **FastFourierTransform.forward on a grid with per-point weights** (`relative_weights`
+multiplied into the internal array, the cell area `g.w` in `shift_input`): the sum with the
+grid's own weights `w_j = rel_j · g.w`, one axis. -/
+theorem fast_forward_weights_eq_sum (hT : IsChar T) (hE : IsChar E) (hper : ∀ n : ℤ, T (n : K) = 1)
+    (g : Cfg K C) (hN : g.N ≤ g.M) (hMo : g.Mo ≤ g.M) (hcons : g.dT * (g.M : K) * g.δ = 1)
+    (rel f : ℕ → C) (k : ℕ) (hk : k < g.Mo) :
+    fastForwardW T E g rel f k
+      = ∑ j ∈ range g.N, f j * (rel j * g.w) * (T (-(g.a k * g.x j)) * E (-(g.s * g.x j))) := by
+  unfold fastForwardW
+  rw [fast_forward_eq_sum hT hE hper g hN hMo hcons _ k hk]
+  exact Finset.sum_congr rfl fun j _ => by ring
+
+/-- … on `n` axes (iterated pipeline), `relative_weights` an arbitrary `n`-D array: the `n`-D sum
+with per-point weights `rel(js) · Π w_i`. -/
+theorem fast_forward_weights_nd_eq_sum (hT : IsChar T) (hE : IsChar E)
+    (hper : ∀ n : ℤ, T (n : K) = 1) (gs : List (Cfg K C))
+    (hgs : ∀ g ∈ gs, g.N ≤ g.M ∧ g.Mo ≤ g.M ∧ g.dT * (g.M : K) * g.δ = 1)
+    (rel f : List ℕ → C) (ks : List ℕ) (hks : List.Forall₂ (fun k g => k < g.Mo) ks gs) :
+    fastForwardNW T E gs rel f ks
+      = sumOverN (gs.map fun g => g.N) fun js =>
+          f js * (rel js * weightN gs) * (T (-(dotA gs ks js)) * E (-(dotS gs js))) := by
+  unfold fastForwardNW
+  rw [fastForwardN_eq_sumForwardN hT hE hper gs hgs _ ks hks, sumForwardN]
+  exact congrArg _ (funext fun js => by ring)
+
+/-- **NaiveFourierTransform.forward = the defining sum**, for both code paths — the list
+comprehension over output points (`precompute_matrices = False`) and the precomputed matrix of
+`get_transformation_matrix_forward` (`A = exp(-i·coords_outᵀ·coords_in); A *= weights`) — on
+arbitrary (unstructured) points in any number of dimensions (`dotCoords us xs k j = u_k · x_j`),
+per-point weights.  The code *is* the sum up to the order of the factors; the statement is kept
+because it is what ties the specification the other theorems refer to to running code (driver op
+`nft`, family `tie-nft`). -/
+theorem naive_forward_eq_sum (n : ℕ) (us xs : List (ℕ → K)) (w f : ℕ → C) (k : ℕ) :
+    nftForwardFly E n us xs w f k = ∑ j ∈ range n, f j * w j * E (-(dotCoords us xs k j)) ∧
+    nftForwardMat E n us xs w f k = ∑ j ∈ range n, f j * w j * E (-(dotCoords us xs k j)) :=
+  ⟨nft_forward_fly_eq_sum E n us xs w f k, nft_forward_mat_eq_sum E n us xs w f k⟩
+
+/-- **NaiveFourierTransform.backward = the backward sum** (`wOut = output weights/(2π)^ndim`),
+both code paths. -/
+theorem naive_backward_eq_sum (m : ℕ) (us xs : List (ℕ → K)) (wOut F : ℕ → C) (j : ℕ) :
+    nftBackwardFly E m us xs wOut F j = ∑ k ∈ range m, F k * wOut k * E (dotCoords us xs k j) ∧
+    nftBackwardMat E m us xs wOut F j = ∑ k ∈ range m, F k * wOut k * E (dotCoords us xs k j) :=
+  ⟨nft_backward_fly_eq_sum E m us xs wOut F j, nft_backward_mat_eq_sum E m us xs wOut F j⟩
+
+/-- **NaiveFourierTransform = MatrixFourierTransform (1-D)** on the same coordinates, both weight
+branches of the MFT, both NFT paths. -/
+theorem naive_eq_mft_1d (n : ℕ) (x u : ℕ → K) (w : Weights C) (f : ℕ → C) (k : ℕ) :
+    nftForwardFly E n [u] [x] w.get f k = mftForward1 E n x u w f k ∧
+    nftForwardMat E n [u] [x] w.get f k = mftForward1 E n x u w f k := by
+  rw [nft_forward_fly_eq_sum, nft_forward_mat_eq_sum, mft_forward_eq_sum_1d]
+  simp only [dotCoords_one, and_self]
+
 /-- The index core on its own (the round-0 spike): pad → ifftshift → DFT → fftshift → crop is the
 centred sum, for every `M`-periodic kernel. -/
 theorem fft_core_centred {M : ℕ} (c : PChar C M) (N Mo : ℕ) (hM : 0 < M) (hNM : N ≤ M)
@@ -213,6 +276,76 @@ theorem zoom_axis_eq_sum' (hE : IsChar E) (h2 : (2 : K) ≠ 0) (n m nfft : ℕ) 
     zoomAxis n m nfft E x0 δ u0 Δ f k = zoomSum n E x0 δ u0 Δ f k :=
   zoom_axis_eq_sum hE h2 n m nfft hn hnfft x0 δ u0 Δ f k hk
 
+/-- **MatrixFourierTransform.backward (2-D), both weight branches** (`Weights.get` is the scalar or
+the array entry). -/
+theorem mft_backward_eq_sum_2d_weights (hE : IsChar E) (cj : C → C) (hcj : ∀ a, cj (E a) = E (-a))
+    (Nx Ny Nu Nv : ℕ) (x y u v : ℕ → K) (wOut : Weights C) (F : ℕ → C) (ix iy : ℕ) (hix : ix < Nx) :
+    mftBackward E cj Nx Ny Nu Nv x y u v wOut F (iy * Nx + ix)
+      = ∑ iv ∈ range Nv, ∑ iu ∈ range Nu,
+          F (iv * Nu + iu) * wOut.get (iv * Nu + iu) * E (u iu * x ix + v iv * y iy) :=
+  mft_backward_eq_sum_2d_get hE cj hcj Nx Ny Nu Nv x y u v wOut F hix
+
+/-- **MatrixFourierTransform, ndim = 1** (`np.dot(M, field*weights)` and
+`np.dot(M.conj().T, field*weights_output)`): forward and backward evaluate the 1-D sums, arbitrary
+coordinates, both weight branches. -/
+theorem mft_eq_sum_1d (cj : C → C) (hcj : ∀ a, cj (E a) = E (-a)) (Nx Nu : ℕ) (x u : ℕ → K)
+    (w wOut : Weights C) (f F : ℕ → C) (iu ix : ℕ) :
+    mftForward1 E Nx x u w f iu = ∑ jx ∈ range Nx, f jx * w.get jx * E (-(u iu * x jx)) ∧
+    mftBackward1 E cj Nu x u wOut F ix = ∑ ju ∈ range Nu, F ju * wOut.get ju * E (u ju * x ix) :=
+  ⟨mft_forward_eq_sum_1d Nx x u w f iu, mft_backward_eq_sum_1d cj hcj Nu x u wOut F ix⟩
+
+/-- **ZoomFFT, one axis, whatever branch the code's powers use**: `w**(k²/2)` and `a**(-k)` are
+computed from the complex numbers `w = exp(-iΔδ)`, `a = exp(i·u₀δ)`, i.e. with *some*
+representatives `ω'`, `α'` with `E ω' = E(-(Δδ))`, `E α' = E(u₀δ)` (numpy: principal values, which
+differ from `-(Δδ)` as soon as `|Δδ| > π`).  For every such pair the Bluestein pipeline times the
+shift is the defining sum — `zoomChirp` (driver op `zoomchirp`) gives the canonical pair. -/
+theorem zoom_eq_sum_any_branch (hE : IsChar E) (h2 : (2 : K) ≠ 0) (n m nfft : ℕ)
+    (hn : 0 < n) (hnfft : n + m - 1 ≤ nfft) (x0 δ u0 Δ ω' α' : K)
+    (hω : E ω' = E (zoomChirp δ u0 Δ).1) (hα : E α' = E (zoomChirp δ u0 Δ).2)
+    (f : ℕ → C) (k : ℕ) (hk : k < m) :
+    cztBluestein n m nfft E ω' α' f k * E (-((u0 + (k : K) * Δ) * x0))
+      = zoomSum n E x0 δ u0 Δ f k :=
+  zoom_eq_sum_branch hE h2 n m nfft hn hnfft x0 δ u0 Δ ω' α' hω hα f k hk
+
+/-- **ZoomFastFourierTransform.forward on `n` axes, including `field * input_weights`**: the
+axis loop (`czt(f)·shift` on every axis, Model/ZoomN.lean) evaluates the `n`-D defining sum
+`Σ_js f(js)·w(js)·exp(-i·Σ_i (u0_i + k_i Δ_i)(x0_i + j_i δ_i))`, for every list of axes, all
+`nfft_i ≥ n_i + m_i - 1`, per-point weights, every in-range output index list. -/
+theorem zoom_forward_nd_eq_sum (hE : IsChar E) (h2 : (2 : K) ≠ 0) (axs : List (ZAx K))
+    (haxs : ∀ a ∈ axs, 0 < a.n ∧ a.n + a.m - 1 ≤ a.nfft)
+    (w f : List ℕ → C) (ks : List ℕ) (hks : List.Forall₂ (fun k a => k < a.m) ks axs) :
+    zoomForwardN E axs w f ks = zoomSumForwardN E axs w f ks :=
+  zoomN_eq_sumN hE h2 axs haxs w f ks hks
+
+/-- **ZoomFastFourierTransform.backward on `n` axes, including `field * output_weights`**
+(`wOut = output_grid.weights/(2π)^n`). -/
+theorem zoom_backward_nd_eq_sum (hE : IsChar E) (h2 : (2 : K) ≠ 0) (axs : List (ZAx K))
+    (haxs : ∀ a ∈ axs, 0 < a.m ∧ a.m + a.n - 1 ≤ a.nfftInv)
+    (wOut F : List ℕ → C) (js : List ℕ) (hjs : List.Forall₂ (fun j a => j < a.n) js axs) :
+    zoomBackwardN E axs wOut F js = zoomSumBackwardN E axs wOut F js :=
+  zoomN_backward_eq_sumN hE h2 axs haxs wOut F js hjs
+
+/-- the `n`-axis forward loop run with arbitrary admissible branches `(ω'_i, α'_i)` per axis (the
+loop as numpy executes it) evaluates the same `n`-D sum -/
+theorem zoom_forward_nd_any_branch_eq_sum (hE : IsChar E) (h2 : (2 : K) ≠ 0)
+    (axs : List (ZAx K × K × K))
+    (haxs : ∀ p ∈ axs, 0 < p.1.n ∧ p.1.n + p.1.m - 1 ≤ p.1.nfft ∧
+      E p.2.1 = E (-(p.1.Δ * p.1.δ)) ∧ E p.2.2 = E (p.1.u0 * p.1.δ))
+    (w f : List ℕ → C) (ks : List ℕ) (hks : List.Forall₂ (fun k p => k < p.1.m) ks axs) :
+    zoomLoopBranchN E axs (fun js => f js * w js) ks
+      = zoomSumForwardN E (axs.map Prod.fst) w f ks :=
+  zoomN_branch_eq_sumN hE h2 axs haxs w f ks hks
+
+/-- **MatrixFourierTransform (2-D) = ZoomFastFourierTransform (2 axes)** on regular separated
+grids, both weight branches of the MFT (flat C-ordered indices `iy·Nx+ix`, `iv·Nu+iu`). -/
+theorem mft_eq_zoom_2d' (hE : IsChar E) (h2 : (2 : K) ≠ 0) (ay ax : ZAx K)
+    (hy : 0 < ay.n ∧ ay.n + ay.m - 1 ≤ ay.nfft) (hx : 0 < ax.n ∧ ax.n + ax.m - 1 ≤ ax.nfft)
+    (w : Weights C) (f : ℕ → C) (iv iu : ℕ) (hiv : iv < ay.m) (hiu : iu < ax.m) :
+    mftForward E ax.n ay.n ax.m ay.m (fun i => ax.x0 + (i : K) * ax.δ) (fun i => ay.x0 + (i : K) * ay.δ)
+        (fun k => ax.u0 + (k : K) * ax.Δ) (fun k => ay.u0 + (k : K) * ay.Δ) w f (iv * ax.m + iu)
+      = zoomForwardN E [ay, ax] (flat2 ax.n w.get) (flat2 ax.n f) [iv, iu] :=
+  mft_eq_zoom_2d hE h2 ay ax hy hx w f iv iu hiv hiu
+
 end abstract
 
 /-- **ZoomFFT axis bookkeeping (repaired code)**: for every tensor rank and every number of
@@ -220,25 +353,6 @@ dimensions, iteration `i` transforms the axis of `dims[i]` and the layout is res
 theorem zoom_axes_ok' (r ndim : ℕ) :
     zoomLoop r ndim = ((List.range ndim).map Ax.g, initLayout r ndim) :=
   zoom_axes_ok r ndim
-
-/-- D5: the old loop (`moveaxis(f, -i, 0)` twice) leaves a tensor field on a 2-D grid permuted. -/
-theorem zoom_axes_current_counterexample_tensor :
-    zoomLoopOld 1 2 ≠ ((List.range 2).map Ax.g, initLayout 1 2) := by decide
-
-/-- D5: … and a scalar field on a 3-D grid. -/
-theorem zoom_axes_current_counterexample_3d :
-    zoomLoopOld 0 3 ≠ ((List.range 3).map Ax.g, initLayout 0 3) := by decide
-
-/-- D4: the sizes the unrepaired code reported for `N = 87, q = 2.5` (FFT taken at 217 samples,
-spacing `2π/(218·δ)`) are not grid-consistent, whatever the input spacing. -/
-theorem d4_reported_sizes_inconsistent (δ : Rat) :
-    ¬ FftConsistent 87 217 217 δ (1 / ((218 : Rat) * δ)) := by
-  intro ⟨_, _, _, h⟩
-  by_cases hδ : δ = 0
-  · subst hδ; simp at h
-  · have h' : (217 : Rat) / 218 = 1 := by
-      rw [← h]; push_cast; field_simp
-    norm_num at h'
 
 /-! ### `make_fourier_transform`: method selection (`Model/FftSelect.lean`)
 
@@ -277,31 +391,6 @@ theorem selection_sound' (i : GridDesc) (o : Option OutReq) (fftCheaper : Bool) 
     ctorPre i o ch ∧ ctorGrid i o ch = requestedDesc i o ∧
       (∀ r, o = some r → ch.via = .params → AxesReproduced ins outs) :=
   selection_sound_fix i o fftCheaper ch ins outs hnum h
-
-/-- the code as written is sound on requested grids that are Cartesian when regular and have the
-input's number of axes -/
-theorem selection_sound_current (i : GridDesc) (o : Option OutReq) (fftCheaper : Bool) (ch : Choice)
-    (ins : List InAxis) (outs : List OutAxis)
-    (hreq : ∀ r, o = some r → r.grid.ndim = i.ndim ∧
-      (r.grid.isRegular = true → r.grid.cartesian = true) ∧ r.numFft = numFftAxes ins outs)
-    (h : choose detectLit i o fftCheaper = some ch) :
-    ctorPre i o ch ∧ ctorGrid i o ch = requestedDesc i o ∧
-      (∀ r, o = some r → ch.via = .params → AxesReproduced ins outs) :=
-  selection_sound i o fftCheaper ch ins outs hreq h
-
-/-- D63: a regular polar grid with FFT-grid numbers is answered with a Cartesian grid. -/
-theorem selection_current_counterexample_noncartesian :
-    ∃ (i : GridDesc) (r : OutReq) (c : Bool) (ch : Choice),
-      makeFT detectLit i (some r) c = .ok ch ∧ r.grid.ndim = i.ndim ∧
-        ctorGrid i (some r) ch ≠ requestedDesc i (some r) :=
-  selection_unsound_noncartesian_old
-
-/-- D63: a regular grid with fewer axes is answered with a grid of the input's dimension. -/
-theorem selection_current_counterexample_ndim :
-    ∃ (i : GridDesc) (r : OutReq) (c : Bool) (ch : Choice),
-      makeFT detectLit i (some r) c = .ok ch ∧ r.grid.cartesian = true ∧
-        ctorGrid i (some r) ch ≠ requestedDesc i (some r) :=
-  selection_unsound_ndim_old
 
 /-- Non-vacuity of the round trip: `N = 87`, `M = Mo = 218`. -/
 example : getFftParameters ⟨87, 1 / 4⟩ ⟨218, 2 / 109, 3 / 8, 0⟩
@@ -359,6 +448,170 @@ theorem fast_backward_eq_fourier_sum (g : Cfg ℝ ℂ) (hN : g.N ≤ g.M) (hMo :
   congr 1
   push_cast
   ring
+
+/-! ### "Consequently all implementations agree" -/
+
+/-- **FastFourierTransform = MatrixFourierTransform = ZoomFastFourierTransform = naive sum**
+(`Complex.exp`, one axis): on a consistent FFT axis, with output coordinates `u_k = 2π·a_k + s`,
+for every in-range output sample and every `nfft ≥ N + Mo - 1`. -/
+theorem implementations_agree' (g : Cfg ℝ ℂ) (hN0 : 0 < g.N) (hN : g.N ≤ g.M) (hMo : g.Mo ≤ g.M)
+    (hcons : g.dT * (g.M : ℝ) * g.δ = 1) (nfft : ℕ) (hnfft : g.N + g.Mo - 1 ≤ nfft)
+    (f : ℕ → ℂ) (k : ℕ) (hk : k < g.Mo) :
+    fastForward expT expE g f k
+        = mftForward1 expE g.N g.x (fun k => 2 * Real.pi * g.a k + g.s) (.scalar g.w) f k
+    ∧ fastForward expT expE g f k
+        = zoomAxis g.N g.Mo nfft expE g.z g.δ (2 * Real.pi * g.a 0 + g.s) (2 * Real.pi * g.dT)
+            (fun j => f j * g.w) k
+    ∧ fastForward expT expE g f k
+        = ∑ j ∈ range g.N, f j * g.w *
+            Complex.exp (-(Complex.I * (((2 * Real.pi * g.a k + g.s : ℝ) : ℂ) * ((g.x j : ℝ) : ℂ)))) :=
+  implementations_agree g hN0 hN hMo hcons nfft hnfft f k hk
+
+/-- **… on `n` axes**: the iterated FFT pipeline = the `n`-axis zoom loop on the same grids (fed
+with `field * weights`) = the `n`-D defining sum. -/
+theorem implementations_agree_nd' (nf : Cfg ℝ ℂ → ℕ) (gs : List (Cfg ℝ ℂ))
+    (hgs : ∀ g ∈ gs, 0 < g.N ∧ g.N ≤ g.M ∧ g.Mo ≤ g.M ∧ g.dT * (g.M : ℝ) * g.δ = 1 ∧
+      g.N + g.Mo - 1 ≤ nf g)
+    (f : List ℕ → ℂ) (ks : List ℕ) (hks : List.Forall₂ (fun k g => k < g.Mo) ks gs) :
+    fastForwardN expT expE gs f ks
+        = zoomForwardN expE (gs.map (Cfg.toZAx (2 * Real.pi) nf)) (fun _ => weightN gs) f ks
+    ∧ fastForwardN expT expE gs f ks = sumForwardN expT expE gs f ks :=
+  implementations_agree_nd nf gs hgs f ks hks
+
+/-- **ZoomFFT, one axis, `Complex.exp`, every branch** `ω' = -Δδ + 2π·nω`, `α' = u₀δ + 2π·nα`
+(in particular numpy's principal values). -/
+theorem zoom_eq_fourier_sum_any_branch (n m nfft : ℕ) (hn : 0 < n) (hnfft : n + m - 1 ≤ nfft)
+    (x0 δ u0 Δ : ℝ) (nω nα : ℤ) (f : ℕ → ℂ) (k : ℕ) (hk : k < m) :
+    cztBluestein n m nfft expE (-(Δ * δ) + 2 * Real.pi * (nω : ℝ)) (u0 * δ + 2 * Real.pi * (nα : ℝ))
+        f k * expE (-((u0 + (k : ℝ) * Δ) * x0))
+      = ∑ i ∈ range n, f i *
+          Complex.exp (-(Complex.I * (((u0 + (k : ℝ) * Δ : ℝ) : ℂ) * ((x0 + (i : ℝ) * δ : ℝ) : ℂ)))) :=
+  zoom_eq_sum_branch_exp n m nfft hn hnfft x0 δ u0 Δ nω nα f k hk
+
+/-- satisfiability of the hypothesis bundles of the zoom theorems: two axes
+`(n, m, nfft, nfftInv) = (2, 3, 4, 4)`, `(3, 2, 5, 4)`; and a non-trivial branch
+(`Δδ = 4 > π`, representative `-4 + 2π`) -/
+example : ∃ (axs : List (ZAx ℝ)) (ks js : List ℕ),
+    (∀ a ∈ axs, 0 < a.n ∧ a.n + a.m - 1 ≤ a.nfft) ∧
+    (∀ a ∈ axs, 0 < a.m ∧ a.m + a.n - 1 ≤ a.nfftInv) ∧
+    List.Forall₂ (fun k a => k < a.m) ks axs ∧ List.Forall₂ (fun j a => j < a.n) js axs :=
+  ⟨[⟨2, 3, 4, 4, 0, 1, 0, 1⟩, ⟨3, 2, 5, 4, -1, 1 / 2, 0, 1⟩], [2, 1], [1, 2],
+    by simp, by simp,
+    List.Forall₂.cons (by norm_num) (List.Forall₂.cons (by norm_num) List.Forall₂.nil),
+    List.Forall₂.cons (by norm_num) (List.Forall₂.cons (by norm_num) List.Forall₂.nil)⟩
+
+example : ∃ ω' : ℝ, ω' ≠ (zoomChirp (1 : ℝ) 0 4).1 ∧ expE ω' = expE (zoomChirp (1 : ℝ) 0 4).1 :=
+  ⟨-(4 * 1) + 2 * Real.pi * ((1 : ℤ) : ℝ), by intro h; simp [zoomChirp] at h,
+    expE_add_two_pi_int _ 1⟩
+
+/-- satisfiability of the hypothesis bundle of `implementations_agree'` / `implementations_agree_nd'`
+(`N = 2, M = 4, Mo = 3, δ = dT = 1/2, nfft = 4`) -/
+example : ∃ (g : Cfg ℝ ℂ) (nfft k : ℕ), 0 < g.N ∧ g.N ≤ g.M ∧ g.Mo ≤ g.M ∧
+    g.dT * (g.M : ℝ) * g.δ = 1 ∧ g.N + g.Mo - 1 ≤ nfft ∧ k < g.Mo :=
+  ⟨{ N := 2, M := 4, Mo := 3, δ := 1 / 2, z := 0, dT := 1 / 2, s := 0, w := 1, emu := false },
+    4, 2, by norm_num, by norm_num, by norm_num, by norm_num, by norm_num, by norm_num⟩
+
+/-! ### Hypothesis-free: the configuration comes out of `plan`
+
+`plan` (`Model/FftGrid.lean`) is what the driver op `C01 plan` runs and what the harness compares
+with the sizes, cut-outs, output spacing and zero the real `FastFourierTransform` reports.  For every
+request the constructor accepts the hypotheses of the pipeline theorems hold. -/
+
+/-- **`plan` is grid-consistent** for every request `FastFourierTransform.__init__` accepts
+(`0 < N`, `δ ≠ 0`, `1 ≤ q`, `fov ≤ 1`; `q < 1` and `fov > 1` raise in the code, and
+`plan_inconsistent_q_lt_one` / `plan_inconsistent_fov_gt_one` show that they are needed). -/
+theorem plan_consistent' (a : AxisIn) (hN : 0 < a.N) (hδ : a.delta ≠ 0) (hq : 1 ≤ a.q)
+    (hf : a.fov ≤ 1) :
+    FftConsistent a.N (plan a).M (plan a).Mo a.delta (plan a).dT :=
+  plan_consistent a hN hδ hq hf
+
+/-- satisfiability of the side conditions (the D4 request `N = 87, q = 5/2`) -/
+example : ∃ a : AxisIn, 0 < a.N ∧ a.delta ≠ 0 ∧ 1 ≤ a.q ∧ a.fov ≤ 1 :=
+  ⟨⟨87, 1 / 4, -3, 5 / 2, 1, 0⟩, by decide +kernel, by decide +kernel, by decide +kernel, by decide +kernel⟩
+
+/-- **`forward` of the FastFourierTransform that `plan` describes = the defining sum**, with no
+hypothesis on sizes or spacings: any accepted request `(N, δ, z, q, fov, s)`, any weight, both
+shift settings.  `g` is the pipeline configuration built from the plan (the reals that the plan's
+rationals denote). -/
+theorem fast_forward_of_plan (a : AxisIn) (hN : 0 < a.N) (hδ : a.delta ≠ 0) (hq : 1 ≤ a.q)
+    (hf : a.fov ≤ 1) (w : ℂ) (emu : Bool) (f : ℕ → ℂ) (k : ℕ) (hk : k < (plan a).Mo) :
+    let g : Cfg ℝ ℂ := Cfg.ofPlanCast (Rat.castHom ℝ) (plan a) w emu
+    fastForward expT expE g f k
+      = ∑ j ∈ range a.N, f j * w *
+          Complex.exp (-(Complex.I * (((2 * Real.pi * g.a k + g.s : ℝ) : ℂ) * ((g.x j : ℝ) : ℂ)))) := by
+  intro g
+  obtain ⟨h1, h2, h3⟩ := Cfg.ofPlanCast_cons (C := ℂ) (Rat.castHom ℝ) a w emu hN hδ hq hf
+  exact fast_forward_eq_fourier_sum g h1 h2 h3 f k hk
+
+/-- **`backward` of the FastFourierTransform that `plan` describes = the backward sum** with the
+weights of the two grids as the code has them on one axis: input weight `δ`, output weight
+`Δ/(2π) = dT`. -/
+theorem fast_backward_of_plan (a : AxisIn) (hN : 0 < a.N) (hδ : a.delta ≠ 0) (hq : 1 ≤ a.q)
+    (hf : a.fov ≤ 1) (emu : Bool) (F : ℕ → ℂ) (j : ℕ) (hj : j < a.N) :
+    let g : Cfg ℝ ℂ := Cfg.ofPlanCast (Rat.castHom ℝ) (plan a) (((a.delta : ℚ) : ℝ) : ℂ) emu
+    fastBackward expT expE g F j
+      = ∑ k ∈ range (plan a).Mo, F k * ((((plan a).dT : ℚ) : ℝ) : ℂ) *
+          Complex.exp (Complex.I * (((2 * Real.pi * g.a k + g.s : ℝ) : ℂ) * ((g.x j : ℝ) : ℂ))) := by
+  intro g
+  obtain ⟨h1, h2, h3⟩ := Cfg.ofPlanCast_cons (C := ℂ) (Rat.castHom ℝ) a
+    ((((a.delta : ℚ) : ℝ) : ℂ)) emu hN hδ hq hf
+  have hw : ((((plan a).dT : ℚ) : ℝ) : ℂ) * (g.M : ℂ) * g.w = 1 := by
+    have h3' : (((plan a).dT : ℚ) : ℝ) * ((plan a).M : ℝ) * ((a.delta : ℚ) : ℝ) = 1 := h3
+    have : ((((plan a).dT : ℚ) : ℝ) : ℂ) * (((plan a).M : ℕ) : ℂ) * ((((a.delta : ℚ) : ℝ)) : ℂ) = 1 := by
+      exact_mod_cast h3'
+    exact this
+  exact fast_backward_eq_fourier_sum g h1 h2 h3 _ hw F j hj
+
+/-! ### `Old.*` — statements about code that no longer exists in /repo
+
+Documentation of the defects D4, D5, D63 (all repaired in the tree): counterexamples for the
+`…Old` / `detectLit` definitions and the soundness of the unrepaired selection on its restricted
+domain.  They are **not evidence about the working tree**; none of the theorems above uses them.
+(`zoomLoopOld`, `detectLit` are kept in the model only for these statements.) -/
+
+/-- D5: the old loop (`moveaxis(f, -i, 0)` twice) leaves a tensor field on a 2-D grid permuted. -/
+theorem Old.zoom_axes_counterexample_tensor :
+    zoomLoopOld 1 2 ≠ ((List.range 2).map Ax.g, initLayout 1 2) := by decide
+
+/-- D5: … and a scalar field on a 3-D grid. -/
+theorem Old.zoom_axes_counterexample_3d :
+    zoomLoopOld 0 3 ≠ ((List.range 3).map Ax.g, initLayout 0 3) := by decide
+
+/-- D4: the sizes the unrepaired code reported for `N = 87, q = 2.5` (FFT taken at 217 samples,
+spacing `2π/(218·δ)`) are not grid-consistent, whatever the input spacing. -/
+theorem Old.d4_reported_sizes_inconsistent (δ : Rat) :
+    ¬ FftConsistent 87 217 217 δ (1 / ((218 : Rat) * δ)) := by
+  intro ⟨_, _, _, h⟩
+  by_cases hδ : δ = 0
+  · subst hδ; simp at h
+  · have h' : (217 : Rat) / 218 = 1 := by
+      rw [← h]; push_cast; field_simp
+    norm_num at h'
+
+/-- the code as written is sound on requested grids that are Cartesian when regular and have the
+input's number of axes -/
+theorem Old.selection_sound_detectLit (i : GridDesc) (o : Option OutReq) (fftCheaper : Bool) (ch : Choice)
+    (ins : List InAxis) (outs : List OutAxis)
+    (hreq : ∀ r, o = some r → r.grid.ndim = i.ndim ∧
+      (r.grid.isRegular = true → r.grid.cartesian = true) ∧ r.numFft = numFftAxes ins outs)
+    (h : choose detectLit i o fftCheaper = some ch) :
+    ctorPre i o ch ∧ ctorGrid i o ch = requestedDesc i o ∧
+      (∀ r, o = some r → ch.via = .params → AxesReproduced ins outs) :=
+  selection_sound i o fftCheaper ch ins outs hreq h
+
+/-- D63: a regular polar grid with FFT-grid numbers is answered with a Cartesian grid. -/
+theorem Old.selection_counterexample_noncartesian :
+    ∃ (i : GridDesc) (r : OutReq) (c : Bool) (ch : Choice),
+      makeFT detectLit i (some r) c = .ok ch ∧ r.grid.ndim = i.ndim ∧
+        ctorGrid i (some r) ch ≠ requestedDesc i (some r) :=
+  selection_unsound_noncartesian_old
+
+/-- D63: a regular grid with fewer axes is answered with a grid of the input's dimension. -/
+theorem Old.selection_counterexample_ndim :
+    ∃ (i : GridDesc) (r : OutReq) (c : Bool) (ch : Choice),
+      makeFT detectLit i (some r) c = .ok ch ∧ r.grid.cartesian = true ∧
+        ctorGrid i (some r) ch ≠ requestedDesc i (some r) :=
+  selection_unsound_ndim_old
 
 /-- Non-vacuity: a consistent configuration exists (N = 2, M = 4, Mo = 3, δ = 1/2, dT = 1/2). -/
 example : ∃ g : Cfg ℝ ℂ, g.N ≤ g.M ∧ g.Mo ≤ g.M ∧ g.dT * (g.M : ℝ) * g.δ = 1 :=
